@@ -267,6 +267,55 @@ func CheckC20(run *evid.Run) {
 						}
 					}
 				}
+			case x < 46 && len(ids) > 0:
+				// the key of an id is REPLACED (created again) on one instance: that instance and every keystore opened
+				// afterwards must return the key that creation returned (instances that cached the old key earlier are
+				// not asked: a replaced key is outside "a key once created" for them)
+				id := ids[rng.Intn(len(ids))]
+				p, err := inst[who].CreateKey(ctx, id)
+				log("create-again(%s)@%d", id, who)
+				run.Count("keys_created_again_on_one_instance", 1)
+				if err != nil {
+					run.Violate("C20/createkey-error", det("again", true), wit(), "creating the key of %q again failed: %v", id, err)
+					break
+				}
+				ref[id] = rawKey(p)
+				fresh := newKS()
+				for name, k := range map[string]*keystore.Keystore{"the instance that created it again": inst[who], "a keystore opened afterwards": fresh} {
+					g, gerr := k.GetKey(ctx, id)
+					if gerr != nil || g == nil || !bytes.Equal(rawKey(g), ref[id]) {
+						run.Violate("C20/getkey-different", det("after", "key created again", "asked", name), wit(), "after the key of %q was created again, GetKey on %s does not return the key that creation returned (err %v)", id, name, gerr)
+					}
+				}
+				// the other long-lived instances are replaced by fresh ones (they may hold the old key in their cache)
+				for w := range inst {
+					if w != who {
+						inst[w] = newKS()
+					}
+				}
+			case x < 47:
+				// a keystore over ANOTHER datastore in the same process knows nothing about the ids created here
+				od := &countingDS{Datastore: dssync.MutexWrap(ds.NewMapDatastore())}
+				ok2, err := keystore.NewKeystore(od)
+				if err == nil {
+					run.Count("keystores_over_another_datastore_probed", 1)
+					for n := 0; n < 3 && n < len(ids); n++ {
+						id := ids[rng.Intn(len(ids))]
+						if has, _ := ok2.HasKey(ctx, id); has {
+							run.Violate("C20/haskey-true-for-unknown", det("keystore", "over another datastore"), wit(), "a keystore over a DIFFERENT (empty) datastore reports the key of %q present", id)
+						}
+						if g, gerr := ok2.GetKey(ctx, id); gerr == nil && g != nil {
+							run.Violate("C20/getkey-unknown", det("keystore", "over another datastore"), wit(), "a keystore over a DIFFERENT (empty) datastore returns a key for %q", id)
+						}
+					}
+					// and creating the id there gives that datastore a key of its own, leaving this one's alone
+					if len(ids) > 0 {
+						id := ids[rng.Intn(len(ids))]
+						if _, err := ok2.CreateKey(ctx, id); err == nil {
+							probe(id, who)
+						}
+					}
+				}
 			case x < 48 && len(ids) > 0:
 				// a request that was given up (its context has ended) about an existing key, or an identity creation
 				// under such a context: whatever it returns, it must not replace or lose anything
